@@ -450,6 +450,26 @@ int main(int argc, char ** argv) {
             }
         }
         summary();
+    } else if (mode == "hugearray") {
+        // a row-major field over REAL array storage with more than 2^32 cells (one byte each, 4 GiB): the last row lies beyond
+        // the 32-bit range of flat positions; a write there must not show anywhere in the first rows, and must read back
+        using A8 = cb::array<cv::vector_d<char, 1>>;
+        using RS = cb::strided<cv::vector_d<std::size_t, 2>, A8>;
+        const std::size_t e0 = 65537, e1 = 65536;
+        covfie::field<RS> f(covfie::make_parameter_pack(typename RS::configuration_t{e0, e1}, typename A8::configuration_t{e0 * e1}));
+        typename covfie::field<RS>::view_t v(f);
+        long bad = 0;
+        for (std::size_t y : {std::size_t(0), std::size_t(5), std::size_t(65535)}) v.at(e0 - 1, y)[0] = (char)(7 + y % 5);
+        v.at(std::size_t(32768), std::size_t(1))[0] = 3;                      // flat position 2^31 + 1
+        for (std::size_t y : {std::size_t(0), std::size_t(5), std::size_t(65535)}) {
+            ++g_checks; if (v.at(e0 - 1, y)[0] != (char)(7 + y % 5)) ++bad;            // read back
+            ++g_checks; if (v.at(std::size_t(0), y)[0] != 0) ++bad;                       // position modulo 2^32
+            ++g_checks; if (v.at(std::size_t(1), y)[0] != 0) ++bad;
+        }
+        ++g_checks; if (v.at(std::size_t(32768), std::size_t(1))[0] != 3 || v.at(std::size_t(0), std::size_t(1))[0] != 0) ++bad;
+        ++g_cases;
+        if (bad) mismatch("layout/row-major-over-2^32-cells-of-real-storage", {{"ext", {e0, e1}}, {"wrong_cells", bad}});
+        summary();
     } else if (mode == "trace") {   // trace <seed> <scale> <hk_lo> <hk_hi> <out>
         rng r(std::strtoull(argv[2], nullptr, 10));
         long n = std::atol(argv[3]);
